@@ -10,6 +10,7 @@ from ..flow import ANY_EXC
 from ..model import AnalysisError, ClassInfo, FuncInfo, Project, call_name, kwarg, walk_local
 from ..paths import PState, PathAnalysis, run_paths, subst_text, calls_in_order, is_benign_call
 from ..report import Report
+from ..roles import incoming_send_calls, stream_roles
 from ..summaries import contained, fallible_except_contained
 
 # WHATWG event-stream line classes (field, raw line) and what a conformant parser extracts
@@ -29,7 +30,7 @@ def transport(P: Project) -> ClassInfo:
 
 
 def find_router(P: Project, ci: ClassInfo) -> FuncInfo:
-    c = [f for f in P.methods(ci).values() if any(isinstance(x, ast.Call) and call_name(x) in ("self._incoming_send.send", "self._incoming_send.send_nowait") for x in walk_local(f.node))]
+    c = [f for f in P.methods(ci).values() if any(isinstance(x, ast.Call) and call_name(x) in incoming_send_calls(P, ci) for x in walk_local(f.node))]
     if len(c) != 1:
         raise AnalysisError(f"anchor: expected one method of {ci.name} sending on the incoming stream, found {len(c)}")
     return c[0]
@@ -373,7 +374,7 @@ def check(P: Project, R: Report) -> None:
          "response bodies go straight into JSONRPCMessage.model_validate: a batch array raises there, is logged and swallowed by the router, so none of its members is delivered")
 
     # ------------------------------------------------------------------ R4
-    loops = [(f, n) for f in meths.values() for n in walk_local(f.node) if isinstance(n, (ast.AsyncFor, ast.For)) and "_outgoing_recv" in ast.unparse(n.iter)]
+    loops = [(f, n) for f in meths.values() for n in walk_local(f.node) if isinstance(n, (ast.AsyncFor, ast.For)) and ("self." + stream_roles(P, ci)["outgoing_recv"]) in ast.unparse(n.iter)]
     R.need(len(loops) == 1, "anchor: sender loop over the outgoing stream not found")
     lf, loop = loops[0]
     R.fn(lf.fq)
